@@ -97,7 +97,10 @@ func runC15Hist(r *fw.Run, h *c15Hist) []string {
 	// idleExpiry: no connection is open; the next expiry must stop the service with the timeout error
 	idleExpiry := func() {
 		dl := time.Now().Add(lifeBound)
-		for svc.VerifActive() != 0 {
+		if svc.VerifActive() < 0 {
+			time.Sleep(50 * time.Millisecond) // no count to wait for (overlay/varlink_whitebox_noactive.go): give the handlers time to finish
+		}
+		for svc.VerifActive() > 0 {
 			if time.Now().After(dl) {
 				lr.fail("active-count", "every connection has been closed by the service but the active count stays at %d", svc.VerifActive())
 				return
@@ -381,6 +384,7 @@ func runC15(r *fw.Run) {
 			c15Real(r, cf.tr, cf.listen)
 			c15RealLate(r, cf.tr, cf.listen, "")
 			c15RealLate(r, cf.tr, cf.listen, []string{"early", "far"}[k%2])
+			c15Bystanders(r, cf.tr, cf.listen)
 		}
 	}
 }
@@ -652,6 +656,46 @@ func c15RealLate(r *fw.Run, transport string, useListen bool, ctxDeadline string
 	r.Case(fw.Hash("real-late", transport, fmt.Sprint(useListen), ctxDeadline), true)
 }
 
+// c15Bystanders: other connections of the same process - a client Connection to another service, and with it that other
+// service's accepted connection - are open all the time. They are no business of the idle-timeout service: it stops one
+// period after its own last connection.
+func c15Bystanders(r *fw.Run, transport string, useListen bool) {
+	other, err := varlink.NewService("Verif", "Bystander", "1", "u")
+	if err != nil {
+		return
+	}
+	p := filepath.Join(r.WorkDir, fmt.Sprintf("by%d", r.Seq()))
+	ctx, cancel := context.WithCancel(context.Background())
+	defer cancel()
+	if err := other.Bind(ctx, "unix:"+p); err != nil {
+		r.Inconclusive("bystander service: %v", err)
+		return
+	}
+	done := make(chan error, 1)
+	go func() { done <- other.DoListen(ctx, 0) }()
+	defer func() {
+		other.Shutdown()
+		select {
+		case <-done:
+		case <-time.After(10 * time.Second):
+		}
+	}()
+	cctx, ccancel := context.WithTimeout(context.Background(), 10*time.Second)
+	conn, err := varlink.NewConnection(cctx, "unix:"+p)
+	if err == nil {
+		var v string
+		err = conn.GetInfo(cctx, &v, nil, nil, nil, nil)
+	}
+	ccancel()
+	if err != nil {
+		r.Inconclusive("bystander connection: %v", err)
+		return
+	}
+	defer conn.Close()
+	c15RealLate(r, transport, useListen, "")
+	r.Count("real_clock_runs_with_bystander_connections", 1)
+}
+
 func replayC15(r *fw.Run, raw json.RawMessage) {
 	var rc c15RealCase
 	if json.Unmarshal(raw, &rc) == nil && rc.Real {
@@ -676,7 +720,7 @@ func replayC15(r *fw.Run, raw json.RawMessage) {
 func init() {
 	fw.Register(&fw.Engine{
 		ID: "C15", Level: "exploration",
-		Rule: "(A) every valid history over {connect, call, close, abort mid-frame, accept-timeout expiry} up to length 5 (quick) / 10 (thorough), and over {connect, call, close, handler fails, frame that is not a call, expiry} up to length 5 / 7, on a controlled listener whose deadline is virtual: SetDeadline(non-zero) arms it and the harness decides when an armed deadline expires by making the parked Accept return a timeout error. Oracle on event order: an expiry injected while a connection is verifiably open (a round trip on it just completed) must be followed by the loop re-arming the deadline and re-entering Accept, the connection still being served; an expiry injected once every connection has been closed by the service and the active count has reached 0 must make the serving call return ServiceTimeoutError with Close called on the listener; entering Accept unarmed although a timeout was requested is reported (it could never time out); every history ends with an idle expiry. A fifth of the histories run with timeout 0: the listener must never be armed, the serving call must not return by itself, Shutdown returns nil. (B) real clock, T = 150 ms, unix and TCP, Listen and Bind+DoListen, one-sided: with one connection open for 2.5 T a second client must still be served; after the last close the call must return ServiceTimeoutError within 200 T; then a dial must fail, the unix socket file must be gone, and a new service must serve the same address at once. non-trivial = history of >= 2 steps; distinct by hash of the history. A quarter of the histories afterwards serve the same object again the other way round (untimed after timed must never arm, timed after untimed must arm before every Accept); a sixth are preceded by a period that is ended by Shutdown while two connections are still open. Real clock also: 26 connections closing at the same instant; a connection made at 0.6 T must postpone the stop to at least T after the client began to dial (exact, one-sided), also when the serving context carries a deadline of its own that passes inside that period (0.85 T after the start) or far later.",
+		Rule: "(A) every valid history over {connect, call, close, abort mid-frame, accept-timeout expiry} up to length 5 (quick) / 10 (thorough), and over {connect, call, close, handler fails, frame that is not a call, expiry} up to length 5 / 7, on a controlled listener whose deadline is virtual: SetDeadline(non-zero) arms it and the harness decides when an armed deadline expires by making the parked Accept return a timeout error. Oracle on event order: an expiry injected while a connection is verifiably open (a round trip on it just completed) must be followed by the loop re-arming the deadline and re-entering Accept, the connection still being served; an expiry injected once every connection has been closed by the service and the active count has reached 0 must make the serving call return ServiceTimeoutError with Close called on the listener; entering Accept unarmed although a timeout was requested is reported (it could never time out); every history ends with an idle expiry. A fifth of the histories run with timeout 0: the listener must never be armed, the serving call must not return by itself, Shutdown returns nil. (B) real clock, T = 150 ms, unix and TCP, Listen and Bind+DoListen, one-sided: with one connection open for 2.5 T a second client must still be served; after the last close the call must return ServiceTimeoutError within 200 T; then a dial must fail, the unix socket file must be gone, and a new service must serve the same address at once. non-trivial = history of >= 2 steps; distinct by hash of the history. A quarter of the histories afterwards serve the same object again the other way round (untimed after timed must never arm, timed after untimed must arm before every Accept); a sixth are preceded by a period that is ended by Shutdown while two connections are still open. Real clock also: 26 connections closing at the same instant; a connection made at 0.6 T must postpone the stop to at least T after the client began to dial (exact, one-sided), also when the serving context carries a deadline of its own that passes inside that period (0.85 T after the start) or far later, and while a client Connection to another service of the same process (and that service's accepted connection) stays open.",
 		Assumptions: []string{"bounded progress: 10 s for the accept loop to take its next step", "real-clock part: only margins that hold for a correct service under any load are asserted"},
 		Run:         runC15, Replay: replayC15, CrashIsViolation: true, MinEvals: 100,
 		QuickTimeout: 15 * time.Minute, ThoroughTimeout: 60 * time.Minute,
